@@ -59,6 +59,39 @@ PROPS = {
     trusted_base=JSON_TB,
     assumptions=['extension-map numbers are compared by kind only (float formatting is Go-to-Go)', 'message.Unmarshal as repaired by the fix for finding F1'],
  ),
+ 'C06': dict(
+    group='attest', only=['attest'], ops=['attest'],
+    modules=['Ysshra.Props.C06', 'Ysshra.Bridge.Attest'],
+    theorem_files=['Props/C06.lean', 'Bridge/Attest.lean'],
+    anchors=['attestation/yubiattest/signature.go', 'attestation/yubiattest/attest.go'],
+    n=dict(quick=1200, thorough=12000),
+    timeout=dict(quick=600, thorough=3000),
+    trivial=lambda c: c['args'][5] == '0' or c['args'][4] in ('ecdsa', 'ed25519'),
+    rule='RSA device keys (1024/2048 quick; 1024..4096 thorough) generated per run; the harness owns the private key and signs arbitrary encoded messages: '
+         'canonical (both encodings x 4 hashes x every label), every structural byte position and a sample of padding positions replaced by 00/01/ff/bit-flip, '
+         'shifted / truncated padding, wrong-hash and MD5 identifiers, all labels 0..17, bit flips of signature and body, other signature lengths, '
+         'non-RSA keys, device certificate issued by root / other CA / self-signed / expired / not yet valid. '
+         'Non-trivial = chain verifies and key is RSA (the PKCS#1 comparison is reached); distinct = distinct argument fields.',
+    trusted_base=['crypto/x509 chain building (oracle: the harness runs the same Verify call and sends its verdict)', 'SHA-1/256/384/512 digests of the body are oracles carried on the line',
+                  'math/big modular exponentiation is modelled by square-and-multiply on Nat'],
+    assumptions=['RSA / SHA hardness is not part of the theorem: it states which encoded messages are accepted'],
+ ),
+ 'C16': dict(
+    group='attest', only=['modhex', 'pem', 'certparse'], ops=['modhex', 'pem', 'certparse'],
+    modules=['Ysshra.Props.C16', 'Ysshra.Bridge.Attest'],
+    theorem_files=['Props/C16.lean'],
+    anchors=['attestation/yubiattest/modhex.go', 'attestation/yubiattest/attest.go', 'agent/utils/'],
+    n=dict(quick=600, thorough=8000),
+    timeout=dict(quick=600, thorough=3000),
+    compare=lambda c: None if c['op'] == 'certparse' else (c['model'] == c['impl']),
+    trivial=lambda c: c['op'] == 'certparse' and c['args'][0] == 'mutated' and 'yubi=err' in (c['impl'] or []),
+    rule='modhex: every serial-extension value length 0..8, last-extension-wins lists, missing extension; pem: bundles of 0..5 certificates with leading text, text between blocks, '
+         'blocks of other PEM types, unparsable blocks, trailing white space / garbage; certparse: certificates from x509.CreateCertificate over RSA-2048 / P-256 / P-384 / P-521 subject and issuer keys, '
+         'SHA-1/256/384/512 signatures, basic constraints, key usage, key ids, alternative names, extended usages, policies and three vendor extensions; each also with the key-algorithm NULL removed, '
+         'with trailing data, and with 6 byte-level mutations / truncations; random bytes. Non-trivial = not a rejected mutation; distinct = distinct argument fields.',
+    trusted_base=['crypto/x509.ParseCertificate is the reference for the field-agreement clause (differential, not a theorem)', 'encoding/pem block finding and encoding/asn1 are oracles'],
+    assumptions=['the DER decoder itself is not modelled in Lean; theorems cover ModHex and PEM bundle ordering'],
+ ),
 }
 
 NOT_APPLICABLE = {}
@@ -94,4 +127,17 @@ MANIFEST_TEXT = {
     design_ref='DESIGN.md §7 C15',
     note=_NOTE + 'JSON lexer as in C05; float formatting of extension values is not modelled.',
     technique='Lean 4 proof (round-trip) + model/implementation correspondence'),
+ 'C06': dict(
+    text='Lean theorems about the regenerated algorithm switch (SHA-1/256/384/512 labels only, MD2/MD5 insecure, everything else unsupported), chain-first and RSA-only decision logic, the two distinct DigestInfo encodings, '
+         'and (c06_em_iff) that the transliterated comparison accepts exactly the two full-length encoded messages for every modulus length. Tables and every statement of verifyPKCS1v15 / leftPad / Attest are regenerated and pinned; '
+         'the model runs real RSA arithmetic and is compared with Attest on adversarially crafted signatures.',
+    design_ref='DESIGN.md §7 C06',
+    note=_NOTE + 'crypto/x509 chain verification, SHA digests and big.Int arithmetic are oracles / modelled; cryptographic hardness is out of scope (partial).',
+    technique='Lean 4 proof (decision logic, list-slice characterisation) + correspondence with real RSA signatures'),
+ 'C16': dict(
+    text='Lean theorems: ModHex is total, yields 8 characters of the alphabet exactly for 3/4-byte serials, is injective per length, cc padding = leading zero byte; PEM bundles yield all certificates in order, fail on an unparsable block or trailing garbage. '
+         'The clause "agrees with crypto/x509 on every field, NULL-less RSA keys accepted, trailing data rejected" is decided by differential execution against the standard library (partial: no Lean DER model).',
+    design_ref='DESIGN.md §7 C16',
+    note=_NOTE + 'encoding/asn1, encoding/pem, crypto/x509 are the reference, not verified.',
+    technique='Lean 4 proof (ModHex, PEM ordering) + differential run against crypto/x509 for the decoding clause'),
 }
